@@ -1,3 +1,4 @@
 //! Shared helpers for the correspondence harness binaries (one binary per property family).
 pub mod common;
 pub mod gens;
+pub mod subs_env;
